@@ -68,9 +68,13 @@ def age_files(root, base_ns):
 
 
 def clone(src, dst):
+    """copy preserving symlinks, hard links among the copied files, modes and mtimes"""
+    import subprocess
     if os.path.exists(dst):
         shutil.rmtree(dst)
-    shutil.copytree(src, dst, symlinks=True)
+    r = subprocess.run(["cp", "-a", src, dst], capture_output=True, text=True)
+    if r.returncode != 0:
+        raise RuntimeError("cp -a failed: " + r.stderr)
 
 
 def write_files(root, files):
